@@ -300,6 +300,8 @@ inline std::vector<HOp> build_alphabet(unsigned caps, bool extended) {
   }
   // assume
   assume(0, cst({{1, VX}}, 0, C_LEQ), "assume(x<=0)");
+  assume(0, cst({{-1, VX}}, 0, C_LEQ), "assume(x>=0)");
+  assume(0, cst({{1, VY}}, 0, C_LEQ), "assume(y<=0)");
   assume(0, cst({{-1, VX}}, 1, C_LEQ), "assume(x>=1)");
   assume(1, cst({{1, VX}}, 0, C_LT), "assume(x<0)");
   assume(0, cst({{1, VX}}, 0, C_EQ), "assume(x==0)");
